@@ -68,9 +68,10 @@ PROPS = {
     },
     "C10": {
         "parts": [
-            {"id": "C10", "runs": {"quick": 400_000, "thorough": 12_000_000},
+            {"id": "C10", "runs": {"quick": 300_000, "thorough": 9_000_000},
              "probes": ["event.irq_injected_while_masked", "event.irq_injected_inside_handler", "event.irq_injected_while_paused",
-                        "event.timer_raised_requests", "probe.interrupt_entries", "probe.trap_entries", "probe.nesting_depth_ge_2", "probe.nesting_depth_ge_4", "twin_runs"]},
+                        "event.timer_raised_requests", "probe.interrupt_entries", "probe.trap_entries", "probe.nesting_depth_ge_2", "probe.nesting_depth_ge_4", "twin_runs",
+                        "probe.entries_through_rewritten_vector_entry", "probe.entry_through_all_zero_vector_entry", "probe.burst_ge_65_requests"]},
         ],
         "rule": SIG_RULE + "C10 whole-system runs: generated guest (main blocks with mask/unmask episodes, TRAPA, calls; 1-10 handlers of kinds empty/count/nested-trap/unmasking/slow) inside the real run(); "
                 "requests (single and bursts of 2-12, vectors 1-63) injected at seeded iterations, guest times, right behind handler entries, right before RTEs, behind mask blocks and while paused; "
@@ -84,8 +85,9 @@ PROPS = {
     },
     "C06": {
         "parts": [
-            {"id": "C06", "runs": {"quick": 400_000, "thorough": 12_000_000},
-             "probes": ["probe.interrupt_entries", "probe.trap_entries", "probe.rte_matched", "probe.rte_crafted", "probe.nesting_depth_ge_2", "probe.nesting_depth_ge_4"]},
+            {"id": "C06", "runs": {"quick": 300_000, "thorough": 9_000_000},
+             "probes": ["probe.interrupt_entries", "probe.trap_entries", "probe.rte_matched", "probe.rte_crafted", "probe.nesting_depth_ge_2", "probe.nesting_depth_ge_4",
+                        "probe.entries_through_rewritten_vector_entry", "probe.entry_through_all_zero_vector_entry", "probe.entry_memory_compared_before_after"]},
         ],
         "rule": SIG_RULE + "C06 whole-system runs: same generator as C10 with more TRAPA #1-3 blocks and nested-trap handlers; every observed entry (interrupt or TRAPA) and every RTE is checked "
                 "against the frame/round-trip oracle; signature as C10; non-trivial = at least one entry happened.",
@@ -120,7 +122,7 @@ PROPS = {
     },
     "C13": {
         "parts": [
-            {"id": "C13", "runs": {"quick": 8_000, "thorough": 240_000}, "time_limit": {"quick": 120, "thorough": 1500},
+            {"id": "C13", "runs": {"quick": 6_000, "thorough": 180_000}, "time_limit": {"quick": 120, "thorough": 1500},
              "probes": ["probe.ran_to_exit", "probe.ended_by_failing_instruction", "probe.sync_thresholds_crossed", "probe.ended_within_4000_states_of_a_threshold",
                         "probe.example_elf_through_real_loader", "probe.timer_register_stores_seen", "probe.timer_request_totals_checked", "event.host_sleeps", "event.host_stalls"]},
         ],
